@@ -128,6 +128,13 @@ def reorder_pairs():
         out.append(("%s SWAP2 SWAP1 %s" % (ld, st), "SWAP2 SWAP1 %s %s" % (st, ld)))
         out.append(("DUP1 %s DUP4 DUP4 %s" % (ld, st), "DUP3 DUP3 %s DUP1 %s" % (st, ld)))
     out.append(("KECCAK256 SWAP2 SWAP1 MSTORE", "SWAP2 SWAP1 SWAP3 SWAP1 MSTORE KECCAK256"))
+    # three accesses: a load moved across a store that may hit its place, its result stored afterwards (the two dependence lists then have
+    # different lengths and the comparison goes through transitive closures)
+    for ld, st, st2 in (("SLOAD", "SSTORE", "SSTORE"), ("MLOAD", "MSTORE", "MSTORE"), ("MLOAD", "MSTORE8", "MSTORE"), ("MLOAD", "MSTORE", "MSTORE8")):
+        for place in ("PUSH1 0x10", "PUSH1 0x40", "DUP4"):
+            out.append(("PUSH1 0x2a DUP2 %s DUP2 %s %s %s" % (st, ld, place, st2), "DUP2 %s PUSH1 0x2a DUP3 %s %s %s" % (ld, st, place, st2)))
+            out.append(("PUSH1 0x2a DUP2 %s DUP2 %s DUP1 %s %s" % (st, ld, place, st2), "DUP2 %s DUP1 PUSH1 0x2a DUP4 %s %s %s" % (ld, st, place, st2)))
+    out.append(("PUSH1 0x2a DUP2 MSTORE PUSH1 0x20 DUP3 KECCAK256 PUSH1 0x80 MSTORE", "PUSH1 0x20 DUP3 KECCAK256 PUSH1 0x2a DUP3 MSTORE PUSH1 0x80 MSTORE"))
     return out + [(b, a) for a, b in out]
 
 
@@ -205,6 +212,22 @@ def run(tier):
     for a, b in permutation_pairs():
         for o in (osets[:1] + osets[2:3]):
             tasks.append({"kind": "compare", "a": a, "b": b, "opts": o, "mut": "operand-permutation"})
+    # the second block reads (and restores) deeper words than the first: same specification once untouched words are dropped
+    for a, b in [("PUSH1 0x1 PUSH1 0x2 ADD", "DUP1 POP PUSH1 0x1 PUSH1 0x2 ADD"), ("PUSH1 0x1 PUSH1 0x2 ADD", "DUP3 POP PUSH1 0x3"), ("DUP1 DUP1 SUB", "DUP2 DUP1 SUB"),
+                 ("DUP1 ISZERO", "DUP1 ISZERO DUP3 POP"), ("SWAP1 POP PUSH1 0x0", "SWAP1 POP DUP2 DUP1 SUB"), ("PUSH1 0x0 MLOAD", "SWAP2 SWAP2 PUSH1 0x0 MLOAD"),
+                 ("CALLER", "DUP16 POP CALLER")]:
+        for o in osets:
+            tasks.append({"kind": "compare", "a": a, "b": b, "opts": o, "mut": "deeper-stack"})
+    # two loads of the same place on either side of a store that may hit it, their results exchanged
+    for ld, st in (("SLOAD", "SSTORE"), ("MLOAD", "MSTORE"), ("MLOAD", "MSTORE8")):
+        a = "DUP3 %s SWAP2 SWAP1 %s SWAP1 %s" % (ld, st, ld)
+        for o in (osets[:1] + osets[2:3]):
+            tasks.append({"kind": "compare", "a": a, "b": a + " SWAP1", "opts": o, "mut": "identical-loads-exchanged"})
+    # -partition: the store at which a long block is cut belongs to no sub-block
+    pre, post = " ".join(["PUSH1 0x1 ADD"] * 12), " ".join(["PUSH1 0x1 ADD"] * 6)
+    for st2 in ("MSTORE", "MSTORE8"):
+        tasks.append({"kind": "compare", "a": "%s DUP1 PUSH1 0x0 SSTORE %s" % (pre, post), "b": "%s DUP1 PUSH1 0x0 %s %s" % (pre, st2, post),
+                      "opts": ["-greedy", "-partition"], "mut": "partition-store-changed"})
     for a, b in result_mutant_pairs(tier, rng):
         tasks.append({"kind": "compare", "a": a, "b": b, "opts": ["-greedy"], "mut": "result-operand-swap"})
     groups = {}
